@@ -17,7 +17,7 @@ Rec == ndJsonDeserialize(IOEnv.TRACE)
 VARIABLES i, p, case, fails, kfs, ncases
 vars == <<i, p, case, fails, kfs, ncases>>
 
-TraceInit == /\ i = 1 /\ p = PInit("value", EnabledFindings) /\ case = "" /\ fails = <<>> /\ kfs = <<>>
+TraceInit == /\ i = 1 /\ p = PInit("value", EnabledFindings, "abort") /\ case = "" /\ fails = <<>> /\ kfs = <<>>
              /\ ncases = 0
 
 Close(q, id) ==   \* the verdict of the case that just ended
@@ -29,7 +29,7 @@ TraceNext ==
     /\ LET e == Rec[i] IN
        IF e.k = "reset"
          THEN LET cl == Close(p, case) IN
-              /\ p' = PInit(e.kind, EnabledFindings)
+              /\ p' = PInit(e.kind, EnabledFindings, IF Has(e, "strategy") THEN e.strategy ELSE "abort")
               /\ case' = e.id /\ ncases' = ncases + 1
               /\ fails' = IF ncases = 0 THEN fails ELSE fails \o cl.f
               /\ kfs' = IF ncases = 0 THEN kfs ELSE kfs \o cl.k
